@@ -109,6 +109,62 @@ func build(work string) string {
 	return bin
 }
 
+// conformance runs the repository's own test suite against the rewritten sources in
+// pass-through mode (no controlled run active: every vrt primitive forwards to the real
+// one). It validates the rewriter, which is part of the trusted base.
+func conformance(work string, race bool) int {
+	const vpath = "github.com/tsuna/gohbase/zzvrt"
+	instr := filepath.Join(work, "instr")
+	os.MkdirAll(instr, 0o755)
+	ov, stats, err := vinstr.Run(repoDir, instr, vpath, []string{
+		"github.com/tsuna/gohbase", "github.com/tsuna/gohbase/region", "github.com/tsuna/gohbase/hrpc"})
+	if err != nil {
+		die("instrumenting /repo failed: %v", err)
+	}
+	// a copy of the runtime inside the gohbase module namespace
+	root := filepath.Join(verifDir, "vrt")
+	filepath.Walk(root, func(path string, info os.FileInfo, err error) error {
+		if err != nil || info.IsDir() || !strings.HasSuffix(path, ".go") || strings.HasSuffix(path, "_test.go") {
+			return nil
+		}
+		rel, _ := filepath.Rel(root, path)
+		raw, _ := os.ReadFile(path)
+		dst := filepath.Join(work, "zzvrt", rel)
+		os.MkdirAll(filepath.Dir(dst), 0o755)
+		os.WriteFile(dst, []byte(strings.ReplaceAll(string(raw), "\"verif/vrt", "\""+vpath)), 0o644)
+		ov[filepath.Join(repoDir, "zzvrt", rel)] = dst
+		return nil
+	})
+	js, _ := json.MarshalIndent(map[string]any{"Replace": ov}, "", " ")
+	ovf := filepath.Join(work, "overlay.json")
+	os.WriteFile(ovf, js, 0o644)
+	args := []string{"test", "-overlay", ovf, "-vet=off", "-count=1", "-timeout", "20m"}
+	if race {
+		args = append(args, "-race")
+	}
+	args = append(args, "./...")
+	cmd := exec.Command("go", args...)
+	cmd.Dir = repoDir
+	cmd.Env = goEnv()
+	out, err := cmd.CombinedOutput()
+	okPkgs, bad := 0, 0
+	for _, l := range strings.Split(string(out), "\n") {
+		if strings.HasPrefix(l, "ok ") {
+			okPkgs++
+		}
+		if strings.HasPrefix(l, "FAIL") || strings.HasPrefix(l, "--- FAIL") || strings.Contains(l, "DATA RACE") {
+			bad++
+		}
+	}
+	fmt.Printf("vcheck: conformance (race=%v): rewrote %d files %v; repository test packages ok=%d failures=%d\n", race, len(ov), stats, okPkgs, bad)
+	if err != nil || bad > 0 || okPkgs < 4 {
+		fmt.Println(string(out))
+		fmt.Fprintln(os.Stderr, "vcheck: HARNESS ERROR: the repository's tests do not pass on the rewritten sources")
+		return 2
+	}
+	return 0
+}
+
 func main() {
 	tier := flag.String("tier", "", "quick|thorough (default $VERIF_TIER or quick)")
 	shards := flag.Int("shards", 0, "worker processes (default min(16, NumCPU))")
@@ -144,6 +200,11 @@ func main() {
 	os.MkdirAll(work, 0o755)
 	if !*keep {
 		defer os.RemoveAll(work)
+	}
+	if id == "CONFORMANCE" {
+		rc := conformance(work, *tier == "thorough")
+		os.RemoveAll(work)
+		os.Exit(rc)
 	}
 	bin := build(work)
 	tBuild := time.Since(t0)
